@@ -9,9 +9,10 @@ func init() {
 			"tproxy/redirect listeners and kernel-level faults are not driven (no netfilter in the sandbox)",
 		}, commonAssume...),
 		Parts: []partSpec{
-			{Name: "streams", Flavour: "plain", TimeoutQ: m10, TimeoutT: m60},
-			{Name: "packets", Flavour: "plain", TimeoutQ: m10, TimeoutT: m60},
-			{Name: "text", Flavour: "plain", TimeoutQ: m10, TimeoutT: m60},
+			{Name: "streams", Flavour: "plain", TimeoutQ: m10, TimeoutT: m60, Weight: 6},
+			{Name: "packets", Flavour: "plain", TimeoutQ: m10, TimeoutT: m60, Weight: 4},
+			{Name: "text", Flavour: "plain", TimeoutQ: m10, TimeoutT: m60, Weight: 2},
+			{Name: "live", Flavour: "ft", TimeoutQ: m10, TimeoutT: m60, Weight: 4},
 		},
 	}
 }
